@@ -101,6 +101,9 @@ type Scenario struct {
 	ExtraValues []float64 `json:"extra_values,omitempty"`
 	ExtraDescs  []string  `json:"extra_descs,omitempty"` // descriptions of the instrument on the further meters (default: the same)
 	FailingCallback bool  `json:"failing_callback,omitempty"`
+	ConstLabels     bool  `json:"const_labels,omitempty"`     // WithResourceAsConstantLabels(keys starting with "rz")
+	CompanionInst   string `json:"companion_inst,omitempty"`  // a second instrument with the SAME name and unit but this kind ...
+	CompanionSameScope bool `json:"companion_same_scope,omitempty"` // ... on the same meter (else on a meter of its own)
 	Exemplars bool     `json:"exemplars,omitempty"`
 	TraceID   string   `json:"trace_id,omitempty"`
 	SpanID    string   `json:"span_id,omitempty"`
@@ -140,6 +143,7 @@ type ExJ struct {
 }
 
 type SeriesJ struct {
+	Const  []KV  `json:"const_labels,omitempty"` // exposition: labels whose name starts with "rz" (constant resource labels)
 	Ex     []ExJ `json:"exemplars,omitempty"`
 	Labels []KV  `json:"labels"`
 	Scope  *KV   `json:"scope"` // otel_scope_name / otel_scope_version values
@@ -169,6 +173,8 @@ type Obs struct {
 	ResAttrs  []KV      `json:"res_attrs"` // resource attributes in set order
 	ScopeAttrs []KV     `json:"scope_attrs"` // scope attributes + otel_scope_name / otel_scope_version in set order
 	ScopeInfoLabels []KV `json:"scope_info_labels"`
+	ConstIn     []KV      `json:"const_in"`   // resource attributes kept by the WithResourceAsConstantLabels filter, set order
+	Companion   []FamilyJ `json:"companion"`  // families made only of the companion instrument's series (label zco)
 	ScopeInputs [][]KV `json:"scope_inputs"`          // per meter: its attributes + name + version, in set order
 	ScopeInfoSeries [][]KV `json:"scope_info_series"` // label pairs of every otel_scope_info series
 	SecondFamilies int  `json:"second_scrape_families"`
@@ -212,6 +218,10 @@ func runScenario(sc Scenario) (ob Obs) {
 	}
 	if sc.NoTarget {
 		opts = append(opts, otelprom.WithoutTargetInfo())
+	}
+	constFilter := func(kv attribute.KeyValue) bool { return strings.HasPrefix(string(kv.Key), "rz") }
+	if sc.ConstLabels {
+		opts = append(opts, otelprom.WithResourceAsConstantLabels(constFilter))
 	}
 	exp, err := otelprom.New(opts...)
 	if err != nil {
@@ -280,7 +290,7 @@ func runScenario(sc Scenario) (ob Obs) {
 		attribute.String("otel_scope_name", sc.ScopeName), attribute.String("otel_scope_version", sc.ScopeVer))...))
 
 	// drive creates the scenario's instrument on a meter and records the points through it
-	drive := func(m metric.Meter, points []PointJ, desc string) error {
+	drive := func(m metric.Meter, points []PointJ, desc string, inst string) error {
 		var ierr error
 		sets := make([]attribute.Set, len(points))
 		for i, p := range points {
@@ -290,7 +300,7 @@ func runScenario(sc Scenario) (ob Obs) {
 			}
 			sets[i] = attribute.NewSet(kvs...)
 		}
-		switch sc.Inst {
+		switch inst {
 		case "i64counter":
 			c, e := m.Int64Counter(sc.Name, metric.WithUnit(sc.Unit), metric.WithDescription(desc))
 			ierr = e
@@ -372,7 +382,7 @@ func runScenario(sc Scenario) (ob Obs) {
 				}
 				return nil
 			}
-			switch sc.Inst {
+			switch inst {
 			case "i64obscounter":
 				_, ierr = m.Int64ObservableCounter(sc.Name, metric.WithUnit(sc.Unit), metric.WithDescription(desc), metric.WithInt64Callback(cb))
 			case "i64obsupdown":
@@ -389,7 +399,7 @@ func runScenario(sc Scenario) (ob Obs) {
 				}
 				return nil
 			}
-			switch sc.Inst {
+			switch inst {
 			case "f64obscounter":
 				_, ierr = m.Float64ObservableCounter(sc.Name, metric.WithUnit(sc.Unit), metric.WithDescription(desc), metric.WithFloat64Callback(cb))
 			case "f64obsupdown":
@@ -398,11 +408,23 @@ func runScenario(sc Scenario) (ob Obs) {
 				_, ierr = m.Float64ObservableGauge(sc.Name, metric.WithUnit(sc.Unit), metric.WithDescription(desc), metric.WithFloat64Callback(cb))
 			}
 		default:
-			return errors.New("unknown instrument " + sc.Inst)
+			return errors.New("unknown instrument " + inst)
 		}
 		return ierr
 	}
-	ierr := drive(m, sc.Points, sc.Desc)
+	ierr := drive(m, sc.Points, sc.Desc, sc.Inst)
+	if sc.CompanionInst != "" {
+		cm := m
+		if !sc.CompanionSameScope {
+			cm = mp.Meter(sc.ScopeName+"/companion", metric.WithInstrumentationVersion(sc.ScopeVer))
+		}
+		if !sc.CompanionSameScope {
+			ob.ScopeInputs = append(ob.ScopeInputs, attrKVs(attribute.NewSet(attribute.String("otel_scope_name", sc.ScopeName+"/companion"), attribute.String("otel_scope_version", sc.ScopeVer))))
+		}
+		if e := drive(cm, []PointJ{{Attrs: []AttrJ{{K: "zco", T: "i", I: 1}}, Values: []float64{3}}}, sc.Desc, sc.CompanionInst); e != nil && ierr == nil {
+			ierr = e
+		}
+	}
 	// further meters with the SAME name, version and schema URL that differ only in their instrumentation attributes:
 	// each is a scope of its own (own otel_scope_info series); their points carry a distinguishing attribute
 	ob.ScopeInputs = append(ob.ScopeInputs, ob.ScopeAttrs)
@@ -419,7 +441,7 @@ func runScenario(sc Scenario) (ob Obs) {
 		if j < len(sc.ExtraDescs) {
 			desc = sc.ExtraDescs[j]
 		}
-		if e := drive(em, pts, desc); e != nil && ierr == nil {
+		if e := drive(em, pts, desc, sc.Inst); e != nil && ierr == nil {
 			ierr = e
 		}
 	}
@@ -471,6 +493,26 @@ func runScenario(sc Scenario) (ob Obs) {
 			ob.Families = append(ob.Families, familyJ(mf))
 		}
 	}
+	// the companion instrument (same name + unit, other kind) is judged on its own: its families are those whose series all carry zco
+	if sc.CompanionInst != "" {
+		var own []FamilyJ
+		for _, f := range ob.Families {
+			all := len(f.Series) > 0
+			for _, srs := range f.Series {
+				has := false
+				for _, l := range srs.Labels {
+					has = has || l.K == "zco"
+				}
+				all = all && has
+			}
+			if all {
+				ob.Companion = append(ob.Companion, f)
+			} else {
+				own = append(own, f)
+			}
+		}
+		ob.Families = own
+	}
 	// a second scrape with nothing recorded in between must expose the same families
 	mfs2, gerr2 := reg.Gather()
 	ob.SecondFamilies = len(mfs2)
@@ -487,17 +529,7 @@ func runScenario(sc Scenario) (ob Obs) {
 
 	for _, treg := range trialRegs {
 		ob.HelpTrials++
-		tmfs, terr := treg.Gather()
-		if terr != nil {
-			continue
-		}
-		n := 0
-		for _, mf := range tmfs {
-			if mf.GetName() != "target_info" && mf.GetName() != "otel_scope_info" {
-				n++
-			}
-		}
-		if n <= 1 { // no error, one help text (or nothing exposed at all: every point of the scenario was left out for another reason)
+		if _, terr := treg.Gather(); terr == nil { // two help texts in one family make Gather fail: no error = one help text per family
 			ob.HelpOK++
 		}
 	}
@@ -515,8 +547,20 @@ func runScenario(sc Scenario) (ob Obs) {
 	}
 	for _, sm := range rm.ScopeMetrics {
 		for _, mm := range sm.Metrics {
-			ob.SDK = append(ob.SDK, sdkSeries(mm.Data, sc.TraceID, sc.SpanID)...)
+			for _, srs := range sdkSeries(mm.Data, sc.TraceID, sc.SpanID) {
+				companion := false
+				for _, l := range srs.Labels {
+					companion = companion || l.K == "zco"
+				}
+				if !companion {
+					ob.SDK = append(ob.SDK, srs)
+				}
+			}
 		}
+	}
+	if rm.Resource != nil && sc.ConstLabels {
+		kept, _ := rm.Resource.Set().Filter(constFilter)
+		ob.ConstIn = attrKVs(kept)
 	}
 	return
 }
@@ -620,7 +664,11 @@ func familyJ(mf *dto.MetricFamily) FamilyJ {
 				v := lp.GetValue()
 				sv = &v
 			default:
-				s.Labels = append(s.Labels, KV{lp.GetName(), lp.GetValue()})
+				if strings.HasPrefix(lp.GetName(), "rz") {
+					s.Const = append(s.Const, KV{lp.GetName(), lp.GetValue()})
+				} else {
+					s.Labels = append(s.Labels, KV{lp.GetName(), lp.GetValue()})
+				}
 			}
 		}
 		if sn != nil && sv != nil {
@@ -1229,6 +1277,15 @@ func genScenario(r *vgen.Rand, id int, utf8 bool) Scenario {
 				T: "s", S: vgen.Pick(r, []string{"fake", "", "zz"})})
 		}
 	}
+	// WithResourceAsConstantLabels (keys starting with "rz"), with every combination of the other options drawn above;
+	// the "rz" attributes are sometimes on the resource WITHOUT the option (then no series may carry them)
+	if r.Chance(1, 3) {
+		sc.ConstLabels = r.Chance(3, 4)
+		sc.Res = append(sc.Res, AttrJ{K: "rz.host", T: "s", S: vgen.Pick(r, []string{"h1", "", "a;b"})})
+		if r.Bool() {
+			sc.Res = append(sc.Res, AttrJ{K: "rz_host", T: "s", S: "h0"}, AttrJ{K: "rz.zone", T: "i", I: 3})
+		}
+	}
 	// several meters with the same name and version that differ only in their instrumentation attributes
 	if r.Chance(1, 6) {
 		n := 1 + r.Intn(2)
@@ -1259,6 +1316,29 @@ func genScenario(r *vgen.Rand, id int, utf8 bool) Scenario {
 		sc.Bounds, sc.HasBounds = nil, false
 		makeExemplarScenario(r, &sc)
 	}
+	// a second instrument with the same name and unit but another kind (counter + non-counter), same or another scope; the
+	// counter suffix must be on and the name plain (no "total", letter / digit at the end) so that the two exposed names differ
+	if r.Chance(1, 8) && !sc.NoTotal && !strings.HasSuffix(sc.Inst, "expohist") { // (the exponential view would turn the counter into a histogram)
+		sc.Name = vgen.Pick(r, []string{"disk.io", "http.requests", "queue_size", "x", "mem.used/bytes9", "A.b-c"}) + vgen.Pick(r, []string{"", "2", ".n"})
+		if strings.Contains(sc.Inst, "counter") {
+			sc.CompanionInst = vgen.Pick(r, []string{"i64updown", "f64gauge", "f64hist", "i64obsgauge"})
+		} else {
+			sc.CompanionInst = vgen.Pick(r, []string{"i64counter", "f64obscounter"})
+		}
+		sc.CompanionSameScope = r.Bool()
+		// (a scope that is skipped because of its attributes is a scenario of its own: keep this one's scope attributes benign)
+		var benign []AttrJ
+		for _, at := range sc.ScopeAttrs {
+			known := false
+			for _, k := range knownKeys {
+				known = known || at.K == k
+			}
+			if !known {
+				benign = append(benign, at)
+			}
+		}
+		sc.ScopeAttrs = benign
+	}
 	// resource: sometimes the default-looking one, sometimes colliding keys, rarely keys that cannot become labels
 	// (reserved "__" prefix, ':', only non-ASCII runes: target_info cannot be built)
 	switch r.Intn(4) {
@@ -1286,7 +1366,7 @@ var droppedPool = []AttrJ{
 // makeExemplarScenario rewrites the points: kept attribute "keep" (+ "zid"), everything else is filtered into the exemplar.
 func makeExemplarScenario(r *vgen.Rand, sc *Scenario) {
 	sc.Exemplars = true
-	sc.AllowKeys = []string{"keep", "zid", "zsc"}
+	sc.AllowKeys = []string{"keep", "zid", "zsc", "zco"}
 	sc.TraceID = fmt.Sprintf("%032x", r.U64()|1)
 	sc.SpanID = fmt.Sprintf("%016x", r.U64()|1)
 	for i := range sc.Points {
@@ -1383,6 +1463,32 @@ func fixedCorpus(utf8 bool) []Scenario {
 			s.Points = []PointJ{{Values: []float64{-1000, 1}}, {Attrs: []AttrJ{{K: "zid", T: "i", I: 1}}, Values: []float64{-1, 1000, 2}}}
 		})
 	}
+	// same name + unit, different kinds (the seeded "name cache without the type" shape), same and different scopes, both creation orders
+	for _, pair := range [][2]string{{"i64counter", "f64gauge"}, {"f64gauge", "i64counter"}, {"i64obscounter", "i64updown"}, {"f64hist", "i64counter"}} {
+		for _, same := range []bool{true, false} {
+			pair, same := pair, same
+			mk("disk.io", "By", pair[0], func(s *Scenario) { s.CompanionInst = pair[1]; s.CompanionSameScope = same })
+			mk("http.requests", "1", pair[0], func(s *Scenario) { s.CompanionInst = pair[1]; s.CompanionSameScope = same; s.NoScope = true; s.NoTarget = true })
+		}
+	}
+	// WithResourceAsConstantLabels with every combination of WithoutTargetInfo / WithoutScopeInfo / WithNamespace
+	for mask := 0; mask < 8; mask++ {
+		mask := mask
+		for _, inst := range []string{"i64counter", "f64hist"} {
+			mk("const.labels", "s", inst, func(s *Scenario) {
+				s.ConstLabels = true
+				s.NoTarget = mask&1 != 0
+				s.NoScope = mask&2 != 0
+				if mask&4 != 0 {
+					ns := "ns"
+					s.NS = &ns
+				}
+				s.Res = []AttrJ{{K: "service.name", T: "s", S: "svc"}, {K: "rz.host", T: "s", S: "h1"}, {K: "rz_host", T: "s", S: "h0"}, {K: "rz.zone", T: "i", I: 3}}
+				s.Points = []PointJ{{Values: []float64{1}}, {Attrs: []AttrJ{{K: "zid", T: "i", I: 1}, {K: "a.b", T: "s", S: "x"}}, Values: []float64{2}}}
+			})
+		}
+	}
+	mk("const.labels.absent", "s", "i64counter", func(s *Scenario) { s.Res = []AttrJ{{K: "rz.host", T: "s", S: "h1"}} })
 	// reserved scope labels as attribute keys
 	for _, k := range []string{"otel_scope_name", "otel_scope_version", "otel.scope.name", "otel.scope.version"} {
 		k := k
@@ -1808,7 +1914,7 @@ func emit(w *vgen.Writer, sc Scenario, ob Obs) {
 		}
 		return vgen.List(items)
 	}
-	var pts, pexs, oexs []string
+	var pts, pexs, oexs, oconst []string
 	idsOK := true
 	for _, s := range ob.SDK {
 		pts = append(pts, vgen.Pair(attrsCoq(s.Labels, asRunes), valCoq(s.Val, true)))
@@ -1832,6 +1938,7 @@ func emit(w *vgen.Writer, sc Scenario, ob Obs) {
 			}
 			ss = append(ss, "("+attrsCoq(s.Labels, false)+", "+sc+", "+valCoq(s.Val, false)+")")
 			oexs = append(oexs, exCoq(s.Ex, false))
+			oconst = append(oconst, attrsCoq(s.Const, false))
 		}
 		fam = vgen.Some("(" + vgen.HxS(f.Name) + ", " + vgen.N(uint64(f.Type)) + ", " + vgen.List(ss) + ")")
 	}
@@ -1878,7 +1985,7 @@ func emit(w *vgen.Writer, sc Scenario, ob Obs) {
 			return // the family is incomplete after a Gather error: CHelp carries the verdict
 		}
 	}
-	if !sc.NoScope && ob.ScopeInfo && len(sc.ScopeAttrs) > 0 && len(sc.ExtraScopes) == 0 && len(ob.Families) == 1 {
+	if !sc.NoScope && ob.ScopeInfo && len(sc.ScopeAttrs) > 0 && len(sc.ExtraScopes) == 0 && (sc.CompanionInst == "" || sc.CompanionSameScope) && len(ob.Families) == 1 {
 		var keys, scopes []string
 		for _, a := range sc.ScopeAttrs {
 			keys = append(keys, runes(a.K, true))
@@ -1901,7 +2008,22 @@ func emit(w *vgen.Writer, sc Scenario, ob Obs) {
 		vgen.HxS(sc.Name), vgen.HxS(sc.Unit), vgen.N(uint64(instKind(sc.Inst))), vgen.HxS(sc.ScopeName), vgen.HxS(sc.ScopeVer),
 		attrsCoq(ob.ResAttrs, asRunes), attrsCoq(ob.ScopeAttrs, asRunes), vgen.List(pts),
 		vgen.Bool(ob.GatherErr != ""), vgen.N(uint64(len(ob.Handled))), vgen.Bool(ob.Target), vgen.Bool(ob.ScopeInfo), fam,
-		vgen.HxS(sc.TraceID), vgen.HxS(sc.SpanID), vgen.List(pexs), vgen.List(oexs), vgen.N(cbErrors))
+		vgen.HxS(sc.TraceID), vgen.HxS(sc.SpanID), vgen.List(pexs), vgen.List(oexs),
+		attrsCoq(ob.ConstIn, asRunes), vgen.List(oconst), vgen.N(cbErrors))
+	if sc.ConstLabels {
+		w.Tally(fmt.Sprintf("resource-as-constant-labels:target=%v,scope=%v,ns=%v,labels=%d", !sc.NoTarget, !sc.NoScope, sc.NS != nil, len(ob.ConstIn)))
+	}
+	if sc.CompanionInst != "" {
+		var fs []string
+		for _, f := range ob.Companion {
+			fs = append(fs, "("+vgen.HxS(f.Name)+", "+vgen.N(uint64(f.Type))+", "+vgen.Nat(len(f.Series))+")")
+		}
+		t := vgen.App("CCompanion", vgen.Bool(sc.UTF8), vgen.Bool(sc.NoUnits), vgen.Bool(sc.NoTotal), ns, vgen.HxS(sc.Name), vgen.HxS(sc.Unit),
+			vgen.N(uint64(instKind(sc.CompanionInst))), vgen.List(fs))
+		w.Tally(fmt.Sprintf("same-name-other-kind:%s+%s,same-scope=%v", sc.Inst, sc.CompanionInst, sc.CompanionSameScope))
+		w.Add(t, map[string]any{"name": sc.Name, "unit": sc.Unit, "instrument": sc.Inst, "companion": sc.CompanionInst, "same_scope": sc.CompanionSameScope,
+			"companion_families": ob.Companion, "families": ob.Families, "utf8": sc.UTF8}, "same-name-other-kind-"+scheme, true)
+	}
 	if sc.FailingCallback {
 		w.Tally("failing-callback")
 	}
@@ -1946,7 +2068,8 @@ func emit(w *vgen.Writer, sc Scenario, ob Obs) {
 		t := vgen.App("CAttrs", vgen.Bool(sc.UTF8), attrsCoq(ob.ResAttrs, asRunes), attrsCoq(ob.TargetLabels, false))
 		w.Add(t, map[string]any{"resource": ob.ResAttrs, "target_info_labels": ob.TargetLabels, "utf8": sc.UTF8}, "target-info-labels-"+scheme, true)
 	}
-	if ob.ScopeInfo && len(sc.ScopeAttrs) > 0 && len(sc.ExtraScopes) == 0 {
+	oneScope := len(sc.ExtraScopes) == 0 && (sc.CompanionInst == "" || sc.CompanionSameScope)
+	if ob.ScopeInfo && len(sc.ScopeAttrs) > 0 && oneScope {
 		t := vgen.App("CAttrs", vgen.Bool(sc.UTF8), attrsCoq(ob.ScopeAttrs, asRunes), attrsCoq(ob.ScopeInfoLabels, false))
 		w.Add(t, map[string]any{"scope_attributes": ob.ScopeAttrs, "otel_scope_info_labels": ob.ScopeInfoLabels, "utf8": sc.UTF8}, "scope-info-labels-"+scheme, true)
 	}
